@@ -429,16 +429,20 @@ def run_property(pid, tier, seed):
                 if rbin is None:
                     raise Undecided("replay crate does not build against this tree (needed for the bounded stand-in): " + err[-300:])
             budget = 20000 if tier == "thorough" else 3000
-            if mode == "cli":
+            if mode in ("cli", "cliorder", "climodel"):
                 from . import clisweep
-                foundin, checked, cerr = clisweep.sweep(REPO, budget, seed)
+                foundin, checked, cerr = {"cli": clisweep.sweep, "cliorder": clisweep.sweep_order, "climodel": clisweep.sweep_model}[mode](REPO, budget, seed)
                 if cerr:
                     raise Undecided("the rsbdd binary does not build from this tree (needed for the bounded CLI stand-in): " + cerr[-300:])
                 standins.append({"mode": mode, "label": "bounded - not counted as proved", "budget": budget, "seed": seed, "cases_checked": checked,
-                                 "bound": "real binary over 36 formula texts (valid, malformed, extreme) x 17 option sets, 9 ordering files, 3 input channels, invalid UTF-8, plus seeded random combinations; requirement: no panic",
+                                 "bound": ("real binary over 36 formula texts (valid, malformed, extreme) x 17 option sets, 9 ordering files, 3 input channels, invalid UTF-8, plus seeded random combinations; requirement: no panic"
+                                           if mode == "cli" else
+                                           "real binary, 21 formulas x {-m -t, -m -t -f true}: exactly one satisfying row for a satisfiable formula, none otherwise, and the row satisfies the formula"
+                                           if mode == "climodel" else
+                                           "real binary, 12 formulas x 10 ordering files (permutations, subsets, supersets with unused names, duplicates, punctuation, comments): same satisfying assignments of the same names as the default order; listed variables in file order; -r export fed back with -o reproduces the identical table"),
                                  "failing_input": foundin})
                 if foundin is not None:
-                    fl = Failure("bounded-standin", "bounded CLI stand-in: the real binary panicked", "", f"{pid}::bounded#cli", 0, json.dumps(foundin))
+                    fl = Failure("bounded-standin", "bounded CLI stand-in: the real binary misbehaved", "", f"{pid}::bounded#{mode}", 0, json.dumps(foundin))
                     hit = match_known(kf, pid, pclosure, fl, b, foundin)
                     if hit:
                         log(f"KNOWN-FINDING: property={pid} {hit['what']}")
